@@ -95,13 +95,37 @@ Theorem C19_vpcC_refuted : forall c, strict_vpcc (payload_of (build_vpcc_box c))
 Proof. exact vpcc_refuted. Qed.
 Print Assumptions C19_vpcC_refuted.
 
-Theorem C19_fragmented_av1C_refuted : forall c, strict_av1c (payload_of (build_av1c_fmp4 c)) = None.
-Proof. exact av1c_fmp4_refuted. Qed.
-Print Assumptions C19_fragmented_av1C_refuted.
+From Muxide Require Export Proofs.InitHeaderProofs.
+(* (formerly refuted: finding KF-C19-6 / KF-C07-1, repaired in muxide by commit 48ef1ef)
+   the fragmented av1C is a strict AV1CodecConfigurationRecord: with the fields and sequence header
+   OBU parsed from the supplied header, or, when that does not parse, with default fields *)
+Theorem C19_fragmented_av1C_strict : forall c a,
+  extract_av1_config (match fc_av1 c with Some s => s | None => [] end) = Some a ->
+  strict_av1c (payload_of (build_av1c_fmp4 c)) =
+    Some {| a1_profile := av1_seq_profile a; a1_level := av1_seq_level_idx a; a1_tier := av1_seq_tier a;
+            a1_high_bitdepth := av1_high_bitdepth a; a1_twelve_bit := av1_twelve_bit a; a1_mono := av1_monochrome a;
+            a1_sx := av1_subsampling_x a; a1_sy := av1_subsampling_y a; a1_csp := av1_chroma_sample_position a;
+            a1_obus := av1_sequence_header a |}.
+Proof. exact fragmented_av1c_strict_parsed. Qed.
+Print Assumptions C19_fragmented_av1C_strict.
 
-Theorem C19_fragmented_hvcC_refuted : forall c, strict_hvcc (payload_of (build_hvcc_fmp4 c)) = None.
-Proof. exact hvcc_fmp4_refuted. Qed.
-Print Assumptions C19_fragmented_hvcC_refuted.
+Theorem C19_fragmented_av1C_strict_fallback : forall c,
+  extract_av1_config (match fc_av1 c with Some s => s | None => [] end) = None ->
+  strict_av1c (payload_of (build_av1c_fmp4 c)) =
+    Some {| a1_profile := 0; a1_level := 0; a1_tier := 0;
+            a1_high_bitdepth := false; a1_twelve_bit := false; a1_mono := false;
+            a1_sx := true; a1_sy := true; a1_csp := 0;
+            a1_obus := match fc_av1 c with Some s => s | None => [] end |}.
+Proof. exact fragmented_av1c_strict_fallback. Qed.
+Print Assumptions C19_fragmented_av1C_strict_fallback.
+
+(* (formerly refuted: finding KF-C19-6, repaired in muxide by commit 48ef1ef) *)
+Theorem C19_fragmented_hvcC_strict : forall c,
+  let vps := match fc_vps c with Some v => v | None => [] end in
+  len vps < 65536 -> len (fc_sps c) < 65536 -> len (fc_pps c) < 65536 ->
+  strict_hvcc (payload_of (build_hvcc_fmp4 c)) = Some [(32, vps); (33, fc_sps c); (34, fc_pps c)].
+Proof. exact fragmented_hvcc_strict. Qed.
+Print Assumptions C19_fragmented_hvcC_strict.
 
 Theorem C19_multichannel_dOps_refuted : forall a, 3 <= at_channels a < 256 -> strict_dops (payload_of (build_dops_box a)) = None.
 Proof. exact dops_multichannel_refuted. Qed.
@@ -140,3 +164,63 @@ Print Assumptions C19_finished_file_header_clauses.
 Theorem C19_oversized_parameter_set_refuted : ~ header_clauses_claim.
 Proof. exact header_clauses_claim_refuted_big_sps. Qed.
 Print Assumptions C19_oversized_parameter_set_refuted.
+
+(* FRAGMENTED muxer, END TO END on the init segment: the exact list of header clauses that fail on
+   the bytes [FragmentedMuxer::init_segment] returns, for every configuration: clauses 1 / 5 iff the
+   timescale does not fit 32 bits, clauses 3 / 9 iff a dimension does not fit 16 bits [KF-C19-7],
+   clause 10 exactly for VP9 [KF-C19-6, the short vpcC]; hvcC and av1C conform
+   (formerly refuted: finding KF-C19-6 / KF-C07-1, repaired in muxide by commit 48ef1ef) *)
+From Muxide Require Export Model.Frag Spec.HeaderChecks Proofs.FragStructureProofs Proofs.InitHeaderProofs.
+Theorem C19_init_segment_header_clauses_exact : forall c,
+  len (init_segment_bytes c) < 4294967296 ->
+  (init_codec_of c = IH264 -> len (fc_sps c) < 65536 /\ len (fc_pps c) < 65536) ->
+  (init_codec_of c = IH265 -> forall v, fc_vps c = Some v ->
+     len v < 65536 /\ len (fc_sps c) < 65536 /\ len (fc_pps c) < 65536) ->
+  failed_C19_init (fc_width c) (fc_height c) (fc_timescale c) (init_segment_bytes c) =
+  clause 1 (fc_timescale c <? 4294967296) ++
+  clause 3 ((fc_width c <? 65536) && (fc_height c <? 65536)) ++
+  clause 5 (fc_timescale c <? 4294967296) ++
+  clause 9 ((fc_width c <? 65536) && (fc_height c <? 65536)) ++
+  clause 10 (match init_codec_of c with IVp9 => false | _ => true end).
+Proof. exact init_segment_header_clauses_exact. Qed.
+Print Assumptions C19_init_segment_header_clauses_exact.
+
+Theorem C19_init_segment_headers_conform_h264 : forall c,
+  fc_vps c = None -> fc_av1 c = None -> fc_vp9 c = None ->
+  fc_width c < 65536 -> fc_height c < 65536 -> fc_timescale c < 4294967296 ->
+  len (fc_sps c) < 65536 -> len (fc_pps c) < 65536 ->
+  failed_C19_init (fc_width c) (fc_height c) (fc_timescale c) (init_segment_of (fmuxer_new c)) = [].
+Proof. exact init_segment_headers_conform_h264. Qed.
+Print Assumptions C19_init_segment_headers_conform_h264.
+
+Theorem C19_init_segment_headers_conform_h265 : forall c v,
+  fc_av1 c = None -> fc_vp9 c = None -> fc_vps c = Some v ->
+  fc_width c < 65536 -> fc_height c < 65536 -> fc_timescale c < 4294967296 ->
+  len v < 65536 -> len (fc_sps c) < 65536 -> len (fc_pps c) < 65536 ->
+  failed_C19_init (fc_width c) (fc_height c) (fc_timescale c) (init_segment_of (fmuxer_new c)) = [].
+Proof. exact init_segment_headers_h265. Qed.
+Print Assumptions C19_init_segment_headers_conform_h265.
+
+Theorem C19_init_segment_headers_conform_av1 : forall c s,
+  fc_av1 c = Some s ->
+  fc_width c < 65536 -> fc_height c < 65536 -> fc_timescale c < 4294967296 ->
+  623 + len s < 4294967296 ->
+  failed_C19_init (fc_width c) (fc_height c) (fc_timescale c) (init_segment_of (fmuxer_new c)) = [].
+Proof. exact init_segment_headers_av1. Qed.
+Print Assumptions C19_init_segment_headers_conform_av1.
+
+Theorem C19_init_segment_headers_vp9 : forall c v,
+  fc_av1 c = None -> fc_vp9 c = Some v ->
+  fc_width c < 65536 -> fc_height c < 65536 -> fc_timescale c < 4294967296 ->
+  failed_C19_init (fc_width c) (fc_height c) (fc_timescale c) (init_segment_of (fmuxer_new c)) = [10].
+Proof. exact init_segment_headers_vp9. Qed.
+Print Assumptions C19_init_segment_headers_vp9.
+
+Theorem C19_init_segment_oversize_dimensions : forall c,
+  fc_vps c = None -> fc_av1 c = None -> fc_vp9 c = None ->
+  65536 <= fc_width c \/ 65536 <= fc_height c ->
+  fc_timescale c < 4294967296 ->
+  len (fc_sps c) < 65536 -> len (fc_pps c) < 65536 ->
+  failed_C19_init (fc_width c) (fc_height c) (fc_timescale c) (init_segment_of (fmuxer_new c)) = [3; 9].
+Proof. exact init_segment_oversize_dimensions. Qed.
+Print Assumptions C19_init_segment_oversize_dimensions.
